@@ -45,3 +45,43 @@ Fixpoint first_loss (d : files) (l : list files) (i : nat) : option nat :=
 
 Definition ok_trace (finished : list Z) (tr : list op) : bool :=
   forallb (ok_survivors finished) (disks fs0 tr) && chainb (disk fs0) (steps fs0 tr).
+
+(* ---------- restart: a new search was created and run in the directory a kill left behind ---------- *)
+Definition line_eqb (a b : line) : bool :=
+  match a, b with
+  | LH n, LH m => Nat.eqb n m
+  | LR i n, LR j m => (i =? j) && Nat.eqb n m
+  | _, _ => false
+  end.
+Fixpoint content_eqb (a b : content) : bool :=
+  match a, b with
+  | [], [] => true
+  | x :: a', y :: b' => line_eqb x y && content_eqb a' b'
+  | _, _ => false
+  end.
+
+Definition keys_nodup (d : files) : bool := znodup (map fst d).
+
+(* the new evaluations are rows of the new results.csv *)
+Definition new_in_results (newfin : list Z) (after : files) : bool :=
+  match fget after fresults with
+  | Some c => forallb (fun i => zmem i (ids c)) newfin
+  | None => match newfin with [] => true | _ => false end
+  end.
+
+(* every *.csv file found before the restart exists afterwards, content unchanged, under a name that is not results.csv *)
+Definition kept_aside (before after : files) : bool :=
+  forallb (fun fc => if is_csv (fst fc)
+                     then existsb (fun gc => negb (fst gc =? fresults) && is_csv (fst gc) && content_eqb (snd fc) (snd gc)) after
+                     else true) before.
+
+(* 0 = fine; 1 = a *.csv file is not a well-formed results file (or two files with one name); 2 = a row id was lost;
+   3 = an evaluation of the new search is not in results.csv; 4 = earlier results are not intact under a distinct name *)
+Definition clause_restart (finished newfin : list Z) (before after : files) : Z :=
+  if negb (keys_nodup after && ok_survivors (finished ++ newfin) after) then 1
+  else if negb (no_loss before after) then 2
+  else if negb (new_in_results newfin after) then 3
+  else if negb (kept_aside before after) then 4
+  else 0.
+Definition ok_restart (finished newfin : list Z) (before after : files) : bool :=
+  clause_restart finished newfin before after =? 0.
